@@ -25,6 +25,10 @@ MANIFEST = dict(
     technique="Lean 4 proof (representation invariant + refinement over edit histories, fault-explicit safety) "
               "+ model/impl correspondence + spec oracle",
     design="DESIGN.md §6 C10")
+MANIFEST["note"] += (" Constants and limits of the C++ source that the model restates (translator/gen_limits.py -> Gen/Limits.lean: "
+                     "compiled probe + preprocessed function bodies at named anchors) are tied to the model's numerals by the "
+                     "theorems of lean/TinsModel/Props/Limits/C10.lean (audit: Audit/LimitsC10.lean); tools/LIMITS-INVENTORY.md lists "
+                     "what is tied and what is not.")
 
 T_A, T_NS, T_CNAME, T_SOA, T_PTR, T_MX, T_TXT, T_AAAA, T_SRV, T_DNAM, T_OPT = 1, 2, 5, 6, 12, 15, 16, 28, 33, 39, 41
 NAME_TYPES = (T_NS, T_CNAME, T_PTR, T_DNAM)
